@@ -25,7 +25,7 @@ Record lstate := LS { l_desc : tens6; l_found : tens6; l_lastp : tens6; l_lastb 
 (* what the loop reads *)
 Record lconst := LC
   { c_hist : tens6; c_hidx : tens6; c_offsets : tens6; c_ids : tens6; c_logps : tens6; c_logbs : tens6;
-    c_srange : tens6; c_V : Z; c_N : Z; c_M : Z; c_O : Z; c_P : Z; c_U : Z }.
+    c_srange : tens6; c_V : Z; c_N : Z; c_M : Z; c_O : Z; c_P : Z; c_U : Z; c_B : Z }.
 
 (* body of `for n in range(1, N)` *)
 Definition body_fn (c : lconst) (n : Z) (s : lstate) : option lstate :=
@@ -121,7 +121,7 @@ Definition main_fn (hist hidx offsets ids logps logbs last_logps : tens6) (sos V
   do srange <- slice0 vrange None (Some S);
   do v1 <- slice0 vrange None (Some V);
   do v2 <- repeat1 v1 B;
-  do h1 <- select0 w2 (-1);
+  do h1 <- select0 w2 (Z.opp 1);
   do h1' <- as_int h1;
   do desc <- cat0 [v2; h1'];
   do lastp <- repeat1 last_logps B;
@@ -129,7 +129,7 @@ Definition main_fn (hist hidx offsets ids logps logbs last_logps : tens6) (sos V
   do lb <- index1 logbs d1;
   do lastb <- repeat_interleave lb V;
   do found <- ones_bool (M + B);
-  do s <- loop_fn (LC w2 hidx' offsets ids logps logbs srange V N M O P U) (zrange_z 1 N) (LS desc found lastp lastb);
+  do s <- loop_fn (LC w2 hidx' offsets ids logps logbs srange V N M O P U B) (zrange_z 1 N) (LS desc found lastp lastb);
   view (l_lastp s) [B; V].
 
 Definition lookup_fn (hist hidx offsets ids logps logbs : tens6) (sos V N G S : Z) : option tens6 :=
@@ -141,26 +141,27 @@ Definition lookup_fn (hist hidx offsets ids logps logbs : tens6) (sos V N G S : 
   let U := V + shift + 1 mod N in
   let I := O + G - U in
   let P := O + G in
-  if N =? 0 then None
-  else if negb ((Z.of_nat (numel ids) =? I) && ((Z.of_nat (numel logps) =? P) && ((Z.of_nat (numel logbs) =? O) && true))) then None
-  else if Z.of_nat (numel hidx) =? 0 then None
-  else
-    do last_logps <- slice0 logps None (Some V);
-    if N =? 1 then expand last_logps [B; V]
+  if N =? 0 then None else
+  if (Z.of_nat (numel ids) =? I) && ((Z.of_nat (numel logps) =? P) && ((Z.of_nat (numel logbs) =? O) && true)) then
+    if Z.of_nat (numel hidx) =? 0 then None
     else
-      do mn <- tmin hidx;
-      do mc <- item mn;
-      match mc with
-      | CI hidx_min =>
-          let rem := N - 1 - hidx_min in
-          if 0 <? rem then
-            do f <- full [rem; B] (CI sos);
-            do hist' <- cat0 [f; hist];
-            do hidx' <- add_s hidx rem;
-            main_fn hist' hidx' offsets ids logps logbs last_logps sos V N S B M O P U shift (hidx_min + rem) 0
-          else main_fn hist hidx offsets ids logps logbs last_logps sos V N S B M O P U shift hidx_min rem
-      | _ => None
-      end.
+      do last_logps <- slice0 logps None (Some V);
+      if N =? 1 then expand last_logps [B; V]
+      else
+        do mn <- tmin hidx;
+        do mc <- item mn;
+        match mc with
+        | CI hidx_min =>
+            let rem := N - 1 - hidx_min in
+            if 0 <? rem then
+              do f <- full [rem; B] (CI sos);
+              do hist' <- cat0 [f; hist];
+              do hidx' <- add_s hidx rem;
+              main_fn hist' hidx' offsets ids logps logbs last_logps sos V N S B M O P U shift (hidx_min + rem) 0
+            else main_fn hist hidx offsets ids logps logbs last_logps sos V N S B M O P U shift hidx_min rem
+        | _ => None
+        end
+  else None.
 
 Local Close Scope Z_scope.
 
@@ -484,6 +485,7 @@ Record Inv (c : lconst) (s : lstate) (st : state) : Prop := mkInv
     i_O : lookup "O" (vars st) = Some (VInt (c_O c));
     i_P : lookup "P" (vars st) = Some (VInt (c_P c));
     i_U : lookup "U" (vars st) = Some (VInt (c_U c));
+    i_B : lookup "B" (vars st) = Some (VInt (c_B c));
     i_desc : lookup "desc" (vars st) = Some (enc6 (l_desc s));
     i_found : lookup "found" (vars st) = Some (enc6 (l_found s));
     i_lastp : lookup "last_logps" (vars st) = Some (enc6 (l_lastp s));
